@@ -33,6 +33,9 @@ const c25Finding = "C25-keyless-prefix-outofband"
 // hits the unique index leaves the entries of the rejected row in the other indexes
 const c25FindingODKU = "C25-keyless-odku-partial-index-writes"
 
+// a merge that rebuilds a UNIQUE index leaves out the rows whose key contains NULL
+const c25FindingUniqNull = "C25-merge-unique-rebuild-drops-null-keys"
+
 // index prefix lengths cut multi-byte characters (bytes, not characters): lookups through a
 // prefix part of a case/accent-insensitive column miss rows
 const c25FindingPrefix = "C25-prefix-bytes-multibyte"
@@ -74,6 +77,10 @@ type c25State struct {
 	skipPrefixMB bool
 	// finding C25-keyless-odku-partial-index-writes is listed open: no ODKU on keyless tables with a unique index
 	noKeylessODKU bool
+	// finding C25-merge-unique-rebuild-drops-null-keys is listed open: after a merge-like statement,
+	// entries missing from a UNIQUE index are tolerated when their key contains NULL
+	tolerateUniqNull bool
+	mergeLike        bool
 
 	lastRows [][]string
 
@@ -568,6 +575,7 @@ func (c *c25State) step(i int, pool []string, kind string) bool {
 		}
 		flag := rapid.SampledFrom([]string{"", "", "'--no-ff', ", "'--squash', "}).Draw(rt, lb+".flag")
 		before := c.lastRows
+		c.mergeLike = true
 		err := c.exec("CALL dolt_merge(" + flag + "'" + o + "')")
 		if err == nil {
 			c.afterMergeLike(lb)
@@ -584,6 +592,7 @@ func (c *c25State) step(i int, pool []string, kind string) bool {
 		}
 		spec := o + rapid.SampledFrom([]string{"", "", "~1"}).Draw(rt, lb+".anc")
 		before := c.lastRows
+		c.mergeLike = true
 		err := c.exec("CALL dolt_cherry_pick('" + spec + "')")
 		if err == nil {
 			c.afterMergeLike(lb)
@@ -596,6 +605,7 @@ func (c *c25State) step(i int, pool []string, kind string) bool {
 		vc = true
 		spec := rapid.SampledFrom([]string{"HEAD", "HEAD", "HEAD~1"}).Draw(rt, lb+".spec")
 		before := c.lastRows
+		c.mergeLike = true
 		if err := c.exec("CALL dolt_revert('" + spec + "')"); err == nil {
 			if !sxRowsEqual(sxSortRows(before), sxSortRows(c.fullScan(""))) {
 				c.fVC = true
@@ -613,6 +623,7 @@ func (c *c25State) step(i int, pool []string, kind string) bool {
 		if rapid.IntRange(0, 1).Draw(rt, lb+".pushpop") == 0 {
 			_ = c.exec("CALL dolt_stash('push', 'st')")
 		} else if err := c.exec("CALL dolt_stash('pop', 'st')"); err == nil {
+			c.mergeLike = true
 			c.class("stash_pop")
 		}
 	}
@@ -750,7 +761,7 @@ func (c *c25State) validateSQL(asOf, what string) {
 			}
 			want := sxSortRows(c25Project(sch, rows, sel))
 			got := sxSortRows(r.Data)
-			if !sxRowsEqual(want, got) {
+			if !sxRowsEqual(want, got) && !c.knownUniqNull(ix.Unique, len(ix.Cols), want, got) {
 				c.fail("%s: index %s (%v) does not mirror the table\n query: %s\n through index: %s\n from full scan: %s", what, ix.Name, ix.Cols, q, sxShowRows(got), sxShowRows(want))
 			}
 		}
@@ -825,11 +836,67 @@ func (c *c25State) lookups(sch *sxSchema, ix sxIndex, rows [][]string, asOfSQL, 
 				want = append(want, row)
 			}
 		}
-		if !sxRowsEqual(sxSortRows(want), sxSortRows(r.Data)) {
+		if !sxRowsEqual(sxSortRows(want), sxSortRows(r.Data)) && !c.knownUniqNullLookup(sch, want, r.Data) {
 			c.fail("%s: lookup through index %s disagrees with the full scan\n query: %s\n through index: %s\n full-scan filter: %s", what, ix.Name, q, sxShowRows(sxSortRows(r.Data)), sxShowRows(sxSortRows(want)))
 		}
 		c.class("sql_lookup")
 	}
+}
+
+// c25Diff returns the multiset differences want-got and got-want.
+func c25Diff(want, got [][]string) (missing, extra [][]string) {
+	cnt := map[string]int{}
+	for _, r := range got {
+		cnt[strings.Join(r, "\x1f")]++
+	}
+	for _, r := range want {
+		k := strings.Join(r, "\x1f")
+		if cnt[k] > 0 {
+			cnt[k]--
+		} else {
+			missing = append(missing, r)
+		}
+	}
+	cnt = map[string]int{}
+	for _, r := range want {
+		cnt[strings.Join(r, "\x1f")]++
+	}
+	for _, r := range got {
+		k := strings.Join(r, "\x1f")
+		if cnt[k] > 0 {
+			cnt[k]--
+		} else {
+			extra = append(extra, r)
+		}
+	}
+	return
+}
+
+// knownUniqNull reports whether a mismatch has exactly the shape of finding
+// C25-merge-unique-rebuild-drops-null-keys: nothing extra, and every missing entry has a NULL
+// among its first nIdx (indexed) columns, in a unique index, after a merge-like statement.
+func (c *c25State) knownUniqNull(unique bool, nIdx int, want, got [][]string) bool {
+	if !c.tolerateUniqNull || !c.mergeLike || !unique {
+		return false
+	}
+	missing, extra := c25Diff(want, got)
+	if len(extra) > 0 || len(missing) == 0 {
+		return false
+	}
+	for _, m := range missing {
+		hasNull := false
+		for i := 0; i < nIdx && i < len(m); i++ {
+			if m[i] == vsql.Null {
+				hasNull = true
+			}
+		}
+		if !hasNull {
+			return false
+		}
+	}
+	c.excluded++
+	c.class("uniq_null_excluded_known")
+	return true
 }
 
 func c25NonASCII(v string) bool {
@@ -876,6 +943,37 @@ func c25PrefixMBAffected(sch *sxSchema, used []sxIdxCol, probe []string, rows []
 		}
 	}
 	return false
+}
+
+// knownUniqNullLookup: the rows a lookup misses all have a NULL in a column of some unique
+// index (dolt may serve the lookup from any index on the column).
+func (c *c25State) knownUniqNullLookup(sch *sxSchema, want, got [][]string) bool {
+	if !c.tolerateUniqNull || !c.mergeLike {
+		return false
+	}
+	missing, extra := c25Diff(want, got)
+	if len(extra) > 0 || len(missing) == 0 {
+		return false
+	}
+	for _, m := range missing {
+		hasNull := false
+		for _, ix := range sch.Indexes {
+			if !ix.Unique {
+				continue
+			}
+			for _, ic := range ix.Cols {
+				if m[sch.colIdx(ic.Name)] == vsql.Null {
+					hasNull = true
+				}
+			}
+		}
+		if !hasNull {
+			return false
+		}
+	}
+	c.excluded++
+	c.class("uniq_null_excluded_known")
+	return true
 }
 
 func idxColNames(ix sxIndex) []string {
@@ -953,7 +1051,7 @@ func (c *c25State) validateInProc(spec sxRootSpec, rows [][]string, sch *sxSchem
 					}
 				}
 			}
-			if !sxRowsEqual(sxSortRows(alt), gs) {
+			if !sxRowsEqual(sxSortRows(alt), gs) && !c.knownUniqNull(ix.Unique, len(ix.Cols), ws, gs) {
 				c.fail("%s: stored index %s %v (key columns %v) does not mirror the table\n stored entries:   %s\n recomputed (rows): %s", spec, ix.Name, ix.Cols, si.Cols, sxShowRows(gs), sxShowRows(ws))
 			}
 		}
@@ -1011,7 +1109,7 @@ func (c *c25State) finalSweep() {
 
 // ---------------------------------------------------------------------------------------
 
-func c25Case(rt *rapid.T, srv *vsql.Server, admin *vsql.Session, rec *vh.Recorder, shortText, skipPrefixMB, noKeylessODKU bool) {
+func c25Case(rt *rapid.T, srv *vsql.Server, admin *vsql.Session, rec *vh.Recorder, shortText, skipPrefixMB, noKeylessODKU, tolerateUniqNull bool) {
 	db := srv.NewDBName()
 	admin.MustExec(rt, "CREATE DATABASE "+db)
 	defer admin.Exec("DROP DATABASE " + db)
@@ -1019,7 +1117,7 @@ func c25Case(rt *rapid.T, srv *vsql.Server, admin *vsql.Session, rec *vh.Recorde
 	s.MustExec(rt, "SET @@dolt_allow_commit_conflicts = 1")
 	s.MustExec(rt, "SET @@dolt_force_transaction_commit = 1")
 	c := &c25State{rt: rt, srv: srv, inproc: &sxInProc{srv: srv}, s: s, db: db, branches: []string{"main"}, cur: "main",
-		shortText: shortText, skipPrefixMB: skipPrefixMB, noKeylessODKU: noKeylessODKU, classes: map[string]bool{}, planCache: map[string]bool{}, validatedCommits: map[string]bool{}}
+		shortText: shortText, skipPrefixMB: skipPrefixMB, noKeylessODKU: noKeylessODKU, tolerateUniqNull: tolerateUniqNull, classes: map[string]bool{}, planCache: map[string]bool{}, validatedCommits: map[string]bool{}}
 	defer func() { c.s.Close() }()
 
 	// schema
@@ -1166,6 +1264,42 @@ func c25PinnedODKU(t *testing.T, srv *vsql.Server, admin *vsql.Session) string {
 	return ""
 }
 
+// c25PinnedUniqNull is the reproduction of finding C25-merge-unique-rebuild-drops-null-keys.
+func c25PinnedUniqNull(t *testing.T, srv *vsql.Server, admin *vsql.Session) string {
+	db := srv.NewDBName()
+	admin.MustExec(t, "CREATE DATABASE "+db)
+	defer admin.Exec("DROP DATABASE " + db)
+	s := srv.Session(t, "pin", db)
+	defer s.Close()
+	for _, q := range []string{
+		"CREATE TABLE t (pk INT PRIMARY KEY, a INT, d INT, UNIQUE KEY ua (a))",
+		"INSERT INTO t VALUES (1,NULL,1),(2,NULL,2),(3,30,3)",
+		"CALL dolt_commit('-Am','base')",
+		"CALL dolt_checkout('-b','b')",
+		"ALTER TABLE t RENAME INDEX ua TO ra",
+		"UPDATE t SET a = 31 WHERE pk = 3",
+		"CALL dolt_commit('-Am','b')",
+		"CALL dolt_checkout('main')",
+		"CREATE INDEX idd ON t (d)",
+		"CALL dolt_commit('-Am','m')",
+		"CALL dolt_merge('b')",
+	} {
+		s.MustExec(t, q)
+	}
+	st, err := (&sxInProc{srv: srv}).readIndexes(db, sxRootSpec{Kind: "working", Branch: "main"}, "t")
+	if err != nil {
+		t.Fatalf("pinned: %v", err)
+	}
+	if st["ra"] == nil || len(st["ra"].Entries) != 3 {
+		got := "<no index ra>"
+		if st["ra"] != nil {
+			got = sxShowRows(st["ra"].Entries)
+		}
+		return "UNIQUE KEY (a) with rows a = NULL, NULL, 30; branch renames the index and sets 30 -> 31, main adds another index, merge: table has 3 rows, rebuilt unique index holds " + got
+	}
+	return ""
+}
+
 // c25PinnedPrefix is the reproduction of finding C25-prefix-bytes-multibyte.
 func c25PinnedPrefix(t *testing.T, srv *vsql.Server, admin *vsql.Session) string {
 	db := srv.NewDBName()
@@ -1193,6 +1327,7 @@ func TestVerif_C25(t *testing.T) {
 		"in-process reading decodes integer and string/byte key fields only (the generator creates no other indexed types)",
 		"while finding "+c25Finding+" is listed open, keyless tables get no out-of-band (long) TEXT/BLOB values; such cases are counted as excluded_known",
 		"while finding "+c25FindingODKU+" is listed open, keyless tables with a unique index get no INSERT … ON DUPLICATE KEY UPDATE (plain INSERT instead; counted as excluded_known)",
+		"while finding "+c25FindingUniqNull+" is listed open, after a merge/cherry-pick/revert/stash-pop statement a UNIQUE index may miss entries whose indexed columns contain NULL (and only those; nothing extra): such mismatches are skipped and counted as excluded_known",
 		"while finding "+c25FindingPrefix+" is listed open, point lookups constraining a non-binary-collated column that is a prefix-length part of some index are skipped when the probe or the column holds multi-byte characters (counted as excluded_known); full-range index scans and the stored-map comparison stay active")
 	defer rec.Write(t)
 	srv, stop := sxStart(t, "c25")
@@ -1231,5 +1366,16 @@ func TestVerif_C25(t *testing.T) {
 			t.Errorf("%s", msg)
 		}
 	})
-	vh.Check(t, "programs", 110, 220, func(rt *rapid.T) { c25Case(rt, srv, admin, rec, open, openPfx, openODKU) })
+	openUN := vh.OpenFinding("C25", c25FindingUniqNull)
+	t.Run("pinned_merge_unique_rebuild_null", func(t *testing.T) {
+		if msg := c25PinnedUniqNull(t, srv, admin); msg != "" {
+			if openUN {
+				vh.ReportKnown("C25", c25FindingUniqNull, msg)
+				return
+			}
+			vh.NoteViolation(t.Name(), "", `{"sql":"see c25PinnedUniqNull","observed":"`+strings.ReplaceAll(msg, `"`, `'`)+`"}`)
+			t.Errorf("%s", msg)
+		}
+	})
+	vh.Check(t, "programs", 110, 220, func(rt *rapid.T) { c25Case(rt, srv, admin, rec, open, openPfx, openODKU, openUN) })
 }
